@@ -113,6 +113,8 @@ Inductive ty :=
 | TUnion (ts : list ty)
 | TName (n : nat)
 | TRef (n : nat)
+| TRefLeaf (s : nat)              (* a forward reference naming leaf type s *)
+| TRefTo (t : ty)                 (* a forward reference naming the NewType / alias object t *)
 | TNewType (i : nat) (t : ty)
 | TAlias (i : nat) (t : ty)
 | TAliasStr (i : nat) (n : nat)
@@ -137,6 +139,7 @@ Record runtime := {
   pairlike_scalar : pv -> bool;             (* a collection of length 2 (e.g. a 2-character str) *)
   index : nat -> pv;                        (* the int object i (keys produced by enumerate) *)
   unhashable_class : nat -> bool;           (* instances of class c are unhashable *)
+  atom_eq : nat -> nat -> bool;             (* two distinct atoms that compare == and hash alike (1, 1.0, True) *)
   none : pv;                                (* the None object *)
   suppressed : exn -> bool                  (* exception kinds the Union routines swallow *)
 }.
@@ -194,12 +197,7 @@ Definition iteritems (v : pv) : res (list (pv * pv)) :=
       | x :: _ => if pairlike x then mapM unpack2 l else Ok (enumerate_from 0 l)
       | [] => Ok []
       end
-  | PNamed c l =>
-      match l with
-      | x :: _ => if pairlike x then mapM unpack2 l
-                  else Ok (combine (map PKey (named_fields c)) l)
-      | [] => Ok []
-      end
+  | PNamed c l => Ok (combine (map PKey (named_fields c)) l)     (* named tuples are never "pairs" *)
   | _ => items_scalar rt v
   end.
 
@@ -213,8 +211,19 @@ Fixpoint unhashable (v : pv) : bool :=
   | _ => false
   end.
 
+(* Python == (with equal hash) on hashable values: what set and dict constructors collapse *)
+Fixpoint pv_pyeq (a b : pv) {struct a} : bool :=
+  match a, b with
+  | PAtom x, PAtom y => Nat.eqb x y || atom_eq rt x y
+  | PSeq KTuple l, PSeq KTuple l' =>
+      (fix go (l l' : list pv) : bool :=
+         match l, l' with [], [] => true | x :: r, y :: t => pv_pyeq x y && go r t | _, _ => false end) l l'
+  | PSeq KFrozenset l, PSeq KFrozenset l' =>
+      Nat.eqb (length l) (length l') && forallb (fun x => existsb (fun y => pv_pyeq x y) l') l
+  | _, _ => pv_eqb a b
+  end.
 Fixpoint mem_pv (v : pv) (l : list pv) : bool :=
-  match l with [] => false | x :: r => pv_eqb v x || mem_pv v r end.
+  match l with [] => false | x :: r => pv_pyeq v x || mem_pv v r end.
 Fixpoint dedupe (l : list pv) (seen : list pv) : list pv :=
   match l with [] => [] | x :: r => if mem_pv x seen then dedupe r seen else x :: dedupe r (x :: seen) end.
 
@@ -229,7 +238,7 @@ Definition construct_seq (k : seqkind) (l : list pv) : res pv :=
 Fixpoint dict_set (k v : pv) (d : list (pv * pv)) : list (pv * pv) :=
   match d with
   | [] => [(k, v)]
-  | (k', v') :: r => if pv_eqb k k' then (k', v) :: r else (k', v') :: dict_set k v r
+  | (k', v') :: r => if pv_pyeq k k' then (k', v) :: r else (k', v') :: dict_set k v r
   end.
 Definition dict_of (l : list (pv * pv)) : list (pv * pv) :=
   fold_left (fun d kv => dict_set (fst kv) (snd kv) d) l [].
@@ -266,10 +275,11 @@ Definition field_ty (cd : classdef) (f : nat) : option ty :=
 (* ---- unions ---- *)
 Definition is_none_ty (t : ty) : bool := match t with TNone => true | _ => false end.
 Definition isoptional (ts : list ty) : bool := existsb is_none_ty ts.
-(* UnionUnmarshaller.__init__: when the union is optional the LAST member is moved to the front *)
-Definition rotate {A} (l : list A) : list A :=
-  match rev l with [] => [] | x :: r => x :: rev r end.
-Definition union_stack_u (ts : list ty) : list ty := if isoptional ts then rotate ts else ts.
+(* UnionUnmarshaller.__init__: when the union is optional the NoneType member(s) are tried first,
+   every other member keeps its declared position *)
+Definition none_first (l : list ty) : list ty :=
+  filter is_none_ty l ++ filter (fun t => negb (is_none_ty t)) l.
+Definition union_stack_u (ts : list ty) : list ty := if isoptional ts then none_first ts else ts.
 
 Fixpoint first_ok (rs : list (pv -> res pv)) (x : pv) : res pv :=
   match rs with
@@ -290,7 +300,7 @@ Fixpoint unm (fuel : nat) (t : ty) (x : pv) {struct fuel} : res pv :=
   | 0 => OutOfFuel
   | S n =>
     match t with
-    | TLeaf s => leaf_u rt s x
+    | TLeaf s | TRefLeaf s => leaf_u rt s x
     | TNone => none_u rt x
     | TSeq k a =>
         bind (load x) (fun d => bind (itervalues d) (fun vs =>
@@ -320,7 +330,7 @@ Fixpoint unm (fuel : nat) (t : ty) (x : pv) {struct fuel} : res pv :=
                       end)) kvs (Ok []))
                  (fun kw => construct_class c cd kw)))
         end
-    | TNewType _ t' | TAlias _ t' | TFinal t' | TClassVar t' => unm n t' x
+    | TNewType _ t' | TAlias _ t' | TFinal t' | TClassVar t' | TRefTo t' => unm n t' x
     end
   end.
 
@@ -331,7 +341,7 @@ Fixpoint mar (fuel : nat) (t : ty) (x : pv) {struct fuel} : res pv :=
   | 0 => OutOfFuel
   | S n =>
     match t with
-    | TLeaf s => leaf_m rt s x
+    | TLeaf s | TRefLeaf s => leaf_m rt s x
     | TNone => Ok x                                         (* NoOpMarshaller *)
     | TSeq k a => bind (itervalues x) (fun vs => bind (mapM (mar n a) vs) (fun rs => Ok (PSeq KList rs)))
     | TMap k kt vt =>
@@ -361,7 +371,7 @@ Fixpoint mar (fuel : nat) (t : ty) (x : pv) {struct fuel} : res pv :=
                       end)) kvs (Ok []))
                  (fun kw => Ok (PDict KDict (map (fun fv => (PKey (fst fv), snd fv)) kw))))
         end
-    | TNewType _ t' | TAlias _ t' | TFinal t' | TClassVar t' => mar n t' x
+    | TNewType _ t' | TAlias _ t' | TFinal t' | TClassVar t' | TRefTo t' => mar n t' x
     end
   end.
 
